@@ -14,6 +14,7 @@ type Frame struct {
 	env       map[ssa.Value]Value
 	retTo     ssa.Value
 	visits    map[int]int // block index -> times entered (loop fuel)
+	forks     map[ssa.Instruction]int
 }
 
 const (
@@ -102,6 +103,10 @@ func (s *State) clone() *State {
 		g.visits = make(map[int]int, len(f.visits))
 		for k, v := range f.visits {
 			g.visits[k] = v
+		}
+		g.forks = make(map[ssa.Instruction]int, len(f.forks))
+		for k, v := range f.forks {
+			g.forks[k] = v
 		}
 		n.frames = append(n.frames, &g)
 	}
